@@ -39,4 +39,41 @@ theorem ctor_args_match : ctorArgs.all ctorOk = true := by decide +kernel
 /-- every measured setter accepts / rejects the probe values exactly as M's constraint table says -/
 theorem acceptance_match : acceptance.all acceptOk = true := by decide +kernel
 
+/-- **objective_is_repricing_function**: for every calibratable family, every COS pricing call made inside the calibration
+    objective of the running code used ONE configuration (number of terms, cut-off, spot, r, d, strike, maturity, payoff) and
+    it is the configuration of a user's default `COSPricer(model)` for the ATM call; the Black–Scholes target was evaluated at
+    the requested (spot, r, d, strike = spot, maturity, sigma).  Fails at build time when the objective prices with another
+    number of terms, another discounting or another forward than the repricing. -/
+theorem objective_is_repricing_function : calibrationConfigs.all cfgRowOk = true := by decide +kernel
+
+theorem objective_rows_cover :
+    ["HEM", "MERTON", "CGMY", "VG"].all (fun n => (calibrationConfigs.map (fun r => r.1)).contains n) = true := by
+  decide +kernel
+
+/-- unpacked: the configurations of a measured row are well formed, the objective's is the user's, the target is the requested one -/
+theorem objective_row_sound (row : String × List (List Rat) × List Rat × List (List Rat) × List Rat)
+    (h : row ∈ calibrationConfigs) :
+    ∃ (cfgUser : PriceCfg) (req : TargetCfg), PriceCfg.ofList row.2.2.1 = some cfgUser ∧ TargetCfg.ofList row.2.2.2.2 = some req ∧
+      (∀ c ∈ row.2.1, PriceCfg.ofList c = some cfgUser) ∧ (∀ t ∈ row.2.2.2.1, TargetCfg.ofList t = some req) := by
+  have hr := List.all_eq_true.mp objective_is_repricing_function row h
+  simp only [cfgRowOk, Bool.and_eq_true, List.all_eq_true, Option.isSome_iff_exists, beq_iff_eq] at hr
+  obtain ⟨⟨⟨⟨⟨⟨_, _⟩, h3⟩, ⟨u, hu⟩⟩, _⟩, h6⟩, ⟨q, hq⟩⟩ := hr
+  exact ⟨u, q, hu, hq, fun c hc => by rw [h3 c hc]; exact hu, fun t ht => by rw [h6 t ht]; exact hq⟩
+
+/-- hence, for the measured code: whatever the pricing function and the closed form are as functions of their
+    configuration, a value returned by the calibration (objective configuration `cfgObj` and target `tgt` taken from a
+    measured row) reprices the REQUESTED target under the USER's default pricer within the root finder's tolerance -/
+theorem measured_calibration_reprices (row : String × List (List Rat) × List Rat × List (List Rat) × List Rat)
+    (h : row ∈ calibrationConfigs) (c : List Rat) (hc : c ∈ row.2.1) (t : List Rat) (ht : t ∈ row.2.2.2.1)
+    (irr : Irr) (rf : RootFinder) (tol : Rat) (hrf : rf.Contract tol) (f : Fam)
+    (priceWith : PriceCfg → Dict → Rat) (bsPrice : TargetCfg → Rat) (d : Dict) (a : Attr) (lo hi x : Rat) :
+    ∃ (cfgObj cfgUser : PriceCfg) (tgt req : TargetCfg),
+      PriceCfg.ofList c = some cfgObj ∧ PriceCfg.ofList row.2.2.1 = some cfgUser ∧
+      TargetCfg.ofList t = some tgt ∧ TargetCfg.ofList row.2.2.2.2 = some req ∧
+      (calibrateCfg irr rf f priceWith bsPrice cfgObj tgt d a lo hi = some x →
+        lo ≤ x ∧ x ≤ hi ∧ ∃ d2, rebuild irr f d a x = some d2 ∧ rabs (priceWith cfgUser d2 - bsPrice req) ≤ tol) := by
+  obtain ⟨u, q, hu, hq, h1, h2⟩ := objective_row_sound row h
+  exact ⟨u, u, q, q, h1 c hc, hu, h2 t ht, hq, fun hx =>
+    calibrate_reprices_target irr rf tol hrf f priceWith bsPrice u u q q d a lo hi x rfl rfl hx⟩
+
 end Rpylib.Params
